@@ -135,6 +135,10 @@ def run(rec, cfg):
     MP.attach_parser("C12", {"history"}, with_budget=False)
     MP.attach_parser_tokenize("C12")
     rng = cfg.rng("c12")
+    from ..workloads import interrupted as _INT
+
+    if cfg.shard == 6 % cfg.nshards:
+        _INT.parser_cases(rec, "C12")
     corp = WT.corpus()
     W8.two_parsers(rec, rng, corp, "C12", cfg.scale(6, 200))
     if cfg.shard == 2 % cfg.nshards:
@@ -180,6 +184,11 @@ def run(rec, cfg):
 
 
 def replay(rec, cfg, w):
+    if "failpoint" in w:
+        from ..workloads import interrupted as _INT
+
+        _INT.parser_cases(rec, "C12")      # deterministic: the whole family of cases is run again
+        return
     if w.get("retry_with_more_stack"):
         retry_with_more_stack(rec)
         return
